@@ -161,7 +161,20 @@ func c08Config(rep *verifkit.Report, rng *rand.Rand, up *sysUpstream, ci int) {
 		{Name: "ign-cid-both", IDs: []string{"hidden-cid"}, IgnoreQLog: true, IgnoreStats: true},
 		{Name: "plain-client", IDs: []string{"127.0.3.20"}},
 	}
-	for _, c := range clients {
+	// An unflagged client whose CIDR contains the flagged CIDR client: the
+	// most specific network must keep winning.  Created before or after the
+	// inner one.
+	outer := c08Client{Name: "outer-net", IDs: []string{"127.0.8.0/22"}}
+	addOrder := append([]c08Client{}, clients...)
+	switch ci % 3 {
+	case 0:
+		addOrder = append([]c08Client{outer}, addOrder...)
+		rep.Class("configurations_with_containing_cidr_client_added_first")
+	case 1:
+		addOrder = append(addOrder, outer)
+		rep.Class("configurations_with_containing_cidr_client_added_last")
+	}
+	for _, c := range addOrder {
 		st, body, aerr := in.API("POST", "/control/clients/add", map[string]any{
 			"name": c.Name, "ids": c.IDs, "use_global_settings": true, "use_global_blocked_services": true,
 			"tags": []string{}, "upstreams": []string{}, "ignore_querylog": c.IgnoreQLog, "ignore_statistics": c.IgnoreStats,
